@@ -161,6 +161,11 @@ def scenarios(ctx, pid):
                 for _ in range(25 * scale):
                     y = [rng.uniform(a, b) for a, b in zip(r.lo, r.up)]
                     r.inverse(y, via=rng.choice(["inv", "pre"]), arg=rng.choice(["array", "list", "tuple"]))
+                # points with integer coordinates passed as ints (lists, tuples, integer arrays): the same point, another dtype
+                ints = [[float(t) for t in p] for p in itertools.product(*[range(int(math.ceil(a)), int(math.floor(b)) + 1)[:3] for a, b in zip(r.lo, r.up)])][:6]
+                for y in ints:
+                    r.inverse(y, via=rng.choice(["inv", "pre"]), arg=rng.choice(["intlist", "int64", "int32"]))
+                    r.inverse(y, via="inv", arg="array")
                 # corners and centre of the box, cell-centre points
                 r.inverse(list(r.lo)), r.inverse(list(r.up))
                 r.inverse([(a + b) / 2 for a, b in zip(r.lo, r.up)])
